@@ -15,7 +15,7 @@ from pyvc.contracts import contract
 from contracts import elements_base as EB
 
 L = "spec.lemma_stubs:"
-WF = "is_obj(self) and elem_wf(self) and is_list(vs) and is_json(x)"
+WF = "(is_obj(self) or is_cls(self)) and elem_wf(self) and is_list(vs) and is_json(x)"
 sub = lambda t: t.replace("element", "self").replace("result", "vs")
 
 EFF_STR = "is_list(eff_required(self)) and forall(lambda j: is_str(eff_required(self)[j]), len(eff_required(self)))"
@@ -118,3 +118,48 @@ for K in EB.INST_CLASSES:
                                            + [f"vals_bwd[{C}]" for C, _, _ in EB._GV if C != "AdditionalProperties"] + [f"vals_bwd[{tname(T)}]"]},
              props=["C01", "C03", "C06", "C17"],
              note=f"theorem for element class {K}: sem(self, x) <=> all keyword clauses, the type clause, the additional-properties validator, construct succeeds")
+
+# ---- model classes: the validators of a class accept x exactly when the object-keyword clauses hold with the class's own keyword
+# values, x is a dict (or an instance of the class), and the (abstract) additionalProperties validator accepts.
+# Hypotheses: postcondition of ObjectMeta.validators (vs for result, self for cls), VREJ, the FWD/BWD lemma statements.
+from contracts import elements_object as EO
+TC = "(dict, self)"
+a = f"some_member(vs, lambda m: type_is(m, InstanceOf) and dict_wf(m.params) and has(m.params,'types') and m.params['types'] is {TC})"
+b = f"all_members(vs, lambda m: implies(type_is(m, InstanceOf), dict_wf(m.params) and has(m.params,'types') and m.params['types'] is {TC}))"
+CWF = "is_cls(self) and isinstance(self, ObjectMeta) and elem_wf(self) and is_list(vs) and is_json(x)"
+contract(L + "vals_fwd", inst="types_cls", requires=f"{CWF} and {a} and accepts_all(vs, x)", returns=tclause(TC),
+         kinds={"vs": "list", "self": "cls"}, lemmas=["VREJ"], ghost={"lemma": True}, props=["C01", "C05", "C04"],
+         note="hypotheses: ObjectMeta.validators InstanceOf clause; VREJ[InstanceOf]")
+contract(L + "vals_bwd", inst="types_cls", requires=f"{CWF} and {b} and is_obj(m) and type_is(m, InstanceOf) and member_is(vs, m) and ({tclause(TC)})",
+         returns="not vrejects(m, x)", kinds={"vs": "list", "self": "cls"}, lemmas=["VREJ"], ghost={"lemma": True}, props=["C01", "C05", "C04"],
+         note="hypotheses: ObjectMeta.validators InstanceOf clause; VREJ[InstanceOf]")
+_OBJ = [(C, present, params) for C, present, params in EB._GV if C in EO._OBJ_CLASSES]
+bs, lem, fwd = [], [], []
+for C, present, params in _OBJ:
+    bs.append(f"all_members(vs, lambda m: implies(type_is(m, {C}), ({sub(present)}) and dict_wf(m.params) and {sub(params)}))")
+    c = _REG[(L + "vals_bwd", C)]
+    lem.append("all_members(vs, lambda m: implies(" + c.requires.replace(" and member_is(vs, m)", "") + ", " + c.returns + "))")
+    c = _REG[(L + "vals_fwd", C)]
+    fwd.append(f"implies({c.requires}, {c.returns})")
+bs.append(b)
+c = _REG[(L + "vals_bwd", "types_cls")]
+lem.append("all_members(vs, lambda m: implies(" + c.requires.replace(" and member_is(vs, m)", "") + ", " + c.returns + "))")
+c = _REG[(L + "vals_fwd", "types_cls")]
+fwd.append(f"implies({c.requires}, {c.returns})")
+clauses = [EB._clause_for(C, present, None) for C, present, params in _OBJ] + [tclause(TC), AP_ABS]
+d6c = " and ".join(f"({c})" for c in clauses)
+EXHC = "all_members(vs, lambda m: type_is(m, InstanceOf) or type_is(m, AdditionalProperties) or " + " or ".join(f"type_is(m, {C})" for C, _, _ in _OBJ) + ")"
+uses_b = [f"vals_bwd[{C}]" for C, _, _ in _OBJ] + ["vals_bwd[types_cls]"]
+uses_f = [f"vals_fwd[{C}]" for C, _, _ in _OBJ] + ["vals_fwd[types_cls]"]
+contract(L + "vals_all", inst="@cls.bwd",
+         requires=f"{CWF} and all_members(vs, lambda m: is_obj(m)) and {EXHC} and " + " and ".join(bs + lem) + f" and {d6c}",
+         returns="accepts_all(vs, x)", kinds={"vs": "list", "self": "cls"}, ghost={"lemma": True, "uses": uses_b}, props=["C01", "C05", "C04"],
+         note="assembly (<=) for model classes: exhaustiveness and (b) clauses of ObjectMeta.validators, statements of the BWD lemmas")
+cb = _REG[(L + "vals_all", "@cls.bwd")]
+contract(L + "vals_all", inst="@cls",
+         requires=f"{CWF} and all_members(vs, lambda m: is_obj(m)) and " + sub(EO._obj_val_post()).replace("cls", "self") + " and " + " and ".join(fwd + lem)
+                  + f" and implies({cb.requires}, {cb.returns})",
+         returns=f"accepts_all(vs, x) == ({d6c})", kinds={"vs": "list", "self": "cls"},
+         ghost={"lemma": True, "uses": uses_f + uses_b + ["vals_all[@cls.bwd]"]}, props=["C01", "C05", "C04"],
+         note="theorem for model classes: the class's validators accept x <=> the object-keyword clauses with the class's own keyword values, "
+              "x is a dict or an instance of the class, and the additionalProperties validator accepts (Object.__new__ raises iff not)")
